@@ -89,8 +89,6 @@ def build(chk):
         for sub in subsets:
             for order in itertools.permutations(sub):
                 for container in ('dict', 'series', 'dict_after_refit'):
-                    if container == 'series' and order != tuple(sub):
-                        continue
                     if container == 'dict_after_refit' and (order != tuple(sub) or sub != subsets[-1]):
                         continue
                     tag = 'd%d.given_%s.%s' % (d, ''.join(order), container)
